@@ -299,9 +299,9 @@ func runBatch(chk *Check, tier string, seed uint64, from, to int, dir string) ba
 		cmd.Stderr = ef
 		cmd.Env = append(os.Environ(), chk.ChildEnv...)
 		if chk.Race {
-			cmd.Env = append(cmd.Env, "GORACE=halt_on_error=0 log_path="+filepath.Join(dir, "race")+" history_size=5")
+			cmd.Env = append(cmd.Env, "GORACE=halt_on_error=0 exitcode=0 log_path="+filepath.Join(dir, "race")+" history_size=5")
 		}
-		cmd.SysProcAttr = &syscall.SysProcAttr{Setpgid: true}
+		cmd.SysProcAttr = &syscall.SysProcAttr{Setpgid: true, Pdeathsig: syscall.SIGKILL} // children never outlive the parent
 		if err := cmd.Start(); err != nil {
 			bo.crashes = append(bo.crashes, crash{start, "spawn: " + err.Error(), ""})
 			ef.Close()
@@ -674,6 +674,14 @@ func runParent(id, propID, tier string, seed uint64) (Evidence, int) {
 		counters["race_reports_distinct"] = int64(len(raceKeys))
 	}
 	evaluated := len(all)
+	// a case that killed its child has no result line but was evaluated (and judged above) all the same
+	died := map[int]bool{}
+	for _, c := range crashes {
+		if c.Index >= 0 && c.Reason != "watchdog" && chk.PanicIsViolation {
+			died[c.Index] = true
+		}
+	}
+	evaluated += len(died)
 	if evaluated < n && len(inconcl) == 0 {
 		inconcl = append(inconcl, fmt.Sprintf("only %d of %d cases produced a result", evaluated, n))
 	}
